@@ -88,8 +88,32 @@ def check_source(ctx, src, tag, cli_dir=None):
     case = {'src': src, 'tag': tag}
     try:
         lx = lexcmp.picotool_tokens(src)
-        writer = lua.LuaEchoWriter(tokens=lx, root=None)
-        echo = b''.join(writer.to_lines())
+        prev = ctx.extra.get('_prev_tokens')
+        if prev is not None and ctx.rng.random() < 0.3:
+            # a history: an earlier echo is abandoned half-way (or read alternately) and must not leak into this one
+            g0 = lua.LuaEchoWriter(tokens=prev, root=None).to_lines()
+            mode = ctx.rng.randrange(3)
+            if mode == 0:
+                next(g0, None)
+                ctx.feature('abandoned_generator_before_echo')
+                echo = b''.join(lua.LuaEchoWriter(tokens=lx, root=None).to_lines())
+            elif mode == 1:
+                g1 = lua.LuaEchoWriter(tokens=lx, root=None).to_lines()
+                parts = []
+                for a in g1:
+                    parts.append(a)
+                    next(g0, None)
+                echo = b''.join(parts)
+                ctx.feature('interleaved_generators')
+            else:
+                next(g0, None)
+                del g0
+                echo = b''.join(lua.LuaEchoWriter(tokens=lx, root=None).to_lines())
+                ctx.feature('abandoned_generator_before_echo')
+        else:
+            writer = lua.LuaEchoWriter(tokens=lx, root=None)
+            echo = b''.join(writer.to_lines())
+        ctx.extra['_prev_tokens'] = lx
     except Exception as e:
         ctx.violation('lexing/echoing a lexable source raised %r' % (e,), case)
         return
@@ -133,6 +157,13 @@ def check_source(ctx, src, tag, cli_dir=None):
 
 
 def run_shard(spec, ctx):
+    try:
+        _run_shard(spec, ctx)
+    finally:
+        ctx.extra.pop('_prev_tokens', None)
+
+
+def _run_shard(spec, ctx):
     rng = ctx.rng
     if spec['kind'] == 'strings':
         for s in c07.gen_strings():
@@ -184,6 +215,8 @@ def gates(m, tier):
               'str:decimal-escape-then-digit', 'str:long-multiline', 'str:raw-high', 'str:raw-ctrl'):
         if f.get(k, 0) < 3:
             missed.append('%s seen %d times' % (k, f.get(k, 0)))
+    if f.get('abandoned_generator_before_echo', 0) < 50 or f.get('interleaved_generators', 0) < 20:
+        missed.append('generator histories: abandoned %d, interleaved %d' % (f.get('abandoned_generator_before_echo', 0), f.get('interleaved_generators', 0)))
     if mon.get('quoted_strings_compared', 0) < 2000:
         missed.append('quoted strings compared: %d' % mon.get('quoted_strings_compared', 0))
     if mon.get('cli_copies_compared', 0) < 20:
